@@ -63,6 +63,16 @@ def metadata_cases(rng):
     rc.insert(2, E('mosExternalMetadata', E('mosScope', text='PLAYLIST'), E('mosPayload', E('owner', text='no schema tag', dept='news'))))
     rc.insert(3, E('mosExternalMetadata', E('mosSchema'), E('mosPayload', E('owner', text='blank schema'))))
     yield from metadata_cases_on(rng, to_text(d), 'schema-less block first')
+    # the same tag / the same mosSchema several times among the running-order metadata: the first one is the one replaced
+    d = rich_ro(rng, 2)
+    rc = d.find('roCreate')
+    rc.insert(2, E('mosExternalMetadata', E('mosSchema', text='http://schema/two'), E('mosPayload', E('Owner', text='first of two'))))
+    rc.append(E('mosExternalMetadata', E('mosSchema', text='http://schema/two'), E('mosPayload', E('Owner', text='last of three'))))
+    rc.append(E('mosExternalMetadata', E('mosSchema', text='http://schema/one'), E('mosPayload', E('Owner', text='second one'))))
+    rc.insert(2, E('roTrigger', text='early trigger'))
+    rc.append(E('roTrigger', text='late trigger'))
+    rc.append(E('roSlug', text='a second slug'))
+    yield from metadata_cases_on(rng, to_text(d), 'repeated blocks and tags')
 
 
 def metadata_cases_on(rng, ro, ro_kind):
@@ -77,6 +87,10 @@ def metadata_cases_on(rng, ro, ro_kind):
                        ([E('roTrigger', text='new trig')], 'trigger'),
                        ([E('roChannel', text='1'), E('roChannel', text='2')], 'new tag twice'),
                        ([E('roSlug', text='s'), md('http://schema/one', 'x'), E('roEdStart', text='2020-01-01T00:00:00')], 'several'),
+                       # children that are not metadata at all: a story (with / without ID), an item, after and before real metadata
+                       ([E('roSlug', text='before the story'), gens.new_story('MDS'), E('roChannel', text='after')], 'story among metadata'),
+                       ([gens.new_story('A'), E('roSlug', text='after the story')], 'story first'),
+                       ([E('roTrigger', text='t'), E('story', E('storySlug', text='no id')), E('item', E('itemID', text='i1'))], 'id-less story and item'),
                        ([], 'empty')]:
         yield {'ro': ro, 'msg': to_text(metadata_replace(7, kids)), 'meta': {'cls': 'MetaDataReplace', 'carried': name, 'ro_kind': ro_kind}}
     yield {'ro': ro, 'msg': to_text(ready_to_air(8)), 'meta': {'cls': 'ReadyToAir'}}
